@@ -151,6 +151,11 @@ def constructed(rng):
                 p = rng.randrange(0, 19)
                 q = rng.randrange(0, 19)
                 dd(c, p, d, q)
+    # 5b'. all-ones / single-bit / empty 64-bit limbs in both factors (carry chains of the cross products)
+    lg = G.limb_grid()
+    for c in lg:
+        for d in rng.sample(lg, 5):
+            dd(c * rng.choice((1, -1)), rng.randrange(0, 19), d * rng.choice((1, -1)), rng.randrange(0, 19))
     # 5c. operands at floor(T / 10^k) +- 2 for every primitive-type maximum T
     for x, y in G.threshold_pairs(rng)[::3]:
         dd(x[0], x[1], y[0], y[1])
